@@ -116,7 +116,7 @@ func CheckAck(a *inssvc.Analysis) error {
 			continue
 		}
 		done, status, _, _ := rq.Result()
-		if !done || len(p.Subs) < tr.H.Cfg.RetryAttempts {
+		if !done || len(p.Subs) < tr.H.Cfg.Attempts() {
 			continue
 		}
 		allFailed := true
@@ -198,6 +198,24 @@ func Classify(a *inssvc.Analysis, o *evid.Obs) {
 		o.Tag("mode:invariants")
 	}
 	o.Tag(fmt.Sprintf("workers:%d", tr.H.Cfg.Workers))
+	switch n := tr.H.Cfg.Attempts(); {
+	case n == 0:
+		o.Tag("cfg:retry_attempts=0")
+	case n == 1:
+		o.Tag("cfg:retry_attempts=1")
+	case n <= 4:
+		o.Tag("cfg:retry_attempts=2..4")
+	default:
+		o.Tag("cfg:retry_attempts=1000")
+	}
+	switch ms := tr.H.Cfg.IntervalMs; {
+	case ms == 0:
+		o.Tag("cfg:interval=1h")
+	case ms == 1:
+		o.Tag("cfg:interval=1ms")
+	default:
+		o.Tag("cfg:interval=2..20ms")
+	}
 	switch q := tr.H.Cfg.MaxQueueSize; {
 	case q == 0:
 		o.Tag("queue:unlimited")
@@ -241,7 +259,7 @@ func Classify(a *inssvc.Analysis, o *evid.Obs) {
 	// HTTP pushes of which a part failed on every attempt, by the class of the last error
 	for _, p := range a.Parts {
 		rq := a.ReqByID[p.ReqID]
-		if rq == nil || !rq.HTTP || len(p.Subs) < tr.H.Cfg.RetryAttempts || len(p.Subs[0].Rows) == 0 {
+		if rq == nil || !rq.HTTP || len(p.Subs) < tr.H.Cfg.Attempts() || len(p.Subs[0].Rows) == 0 {
 			continue
 		}
 		all := true
@@ -277,6 +295,14 @@ func Classify(a *inssvc.Analysis, o *evid.Obs) {
 			o.Tag("http:" + rq.Proto)
 			if d, st, _, _ := rq.Result(); d {
 				o.Tag(fmt.Sprintf("status:%dxx", st/100))
+			}
+		}
+	}
+	if tr.H.Cfg.Attempts() == 0 {
+		for _, rq := range tr.Reqs {
+			if rq.HTTP {
+				o.Tag("http-with-retry_attempts=0")
+				break
 			}
 		}
 	}
